@@ -512,7 +512,15 @@ pub fn main(a: &Args) {
             5 => BnfOpts { max_nt: 6, max_t: 5, max_alts: 4, max_len: 4, p_empty: 0.2 },
             _ => BnfOpts::default(),
         };
-        let g = gen_bnf(&mut rng, &o);
+        let g = if i % 25 == 7 {
+            rep.count("big_family_grammars", 1);
+            gen_big(&mut rng)
+        } else if i % 6 == 3 {
+            rep.count("context_family_grammars", 1);
+            gen_ctx(&mut rng)
+        } else {
+            gen_bnf(&mut rng, &o)
+        };
         i += 1;
         if !g.reduced() {
             rep.count("grammars_not_reduced", 1);
